@@ -8,7 +8,8 @@ oracle.sig.defaults   NO Lean.  Default expressions from a grammar (tuples of le
                       binary / boolean operators, comparisons, conditionals, lambdas, subscripts and slices, strings
                       with quotes and backslashes) x how the parameter is declared (positional, keyword-only after `*`,
                       after `*args`, body argument of a <%call>) x how the call is made (by name, `self.`, capture in
-                      a concatenation, nested def called with content, `<%self:f>` tag on a buffered def, <%call>).
+                      a concatenation, nested def called with content, `<%self:f>` tag on a buffered def, <%call> with
+                      content, `caller.body(1)` for the body argument).
                       Every call leaves the parameter to its default; the def renders `tr(x)` (harness/c05_rt.py:
                       a repr that also names the type of every container and element and calls callables);
                       expected = the same `tr` inside a real Python function with the same signature text.
@@ -30,7 +31,7 @@ RULE_DEFAULTS = (
     "default expressions: %d fixed ones (every container kind with 0/1/2 items, nested one-element tuples, tuples "
     "under every operator kind, conditionals, lambdas with defaults, slices, strings with both quotes and "
     "backslashes) plus random ones from the same grammar to depth 3 (those Python evaluates without an exception); "
-    "each in 4 declarations x 6 calling routes that leave the parameter to its default; non-trivial = the default "
+    "each in 4 declarations (positional, keyword-only, after *args, <%call> body argument) x 7 calling routes that leave the parameter to its default; non-trivial = the default "
     "is not a bare literal; distinct = distinct (default, declaration, route)")
 
 # the grammar's fixed part: written from Python's expression grammar, not from any particular printer method
@@ -221,7 +222,10 @@ def evaluates(text):
             if free:
                 return False
             v = eval(compile(tree, "<default>", "eval"), {"__builtins__": {}})
-            typed_repr(v)
+            v2 = eval(compile(tree, "<default>", "eval"), {"__builtins__": {}})
+            # the value must be the same every time it is computed (a function formatted into a string shows an address)
+            if typed_repr(v) != typed_repr(v2) or " at 0x" in typed_repr(v):
+                return False
         return True
     except Exception:      # noqa
         return False
@@ -305,7 +309,7 @@ def oracle(ctx):
                     seen.add(key)
                     ctx.violation(site, {"kind": "sigdefault", "input": template_for(d, decl, route, fname),
                                          "default": d, "decl": decl, "route": route, "fname": fname,
-                                         "where": {"shape": shape or "other"}}, r[1], "oracle.sig.default_names")
+                                         "shape": shape or "other"}, r[1], "oracle.sig.default_names")
     ctx.log("oracle.sig.default_names: %d cases" % st2["cases"])
 
 
